@@ -48,9 +48,15 @@ def numberFilterFuncs (f : Filter) (ppv : Option Nat) : List (Desc → Bool) :=
   (match f.trackingId with | some u => [fun d => d.trackingId == some u] | none => []) ++
   (match ppv with | some p => [fun d => d.number != p] | none => [])
 
+/-- `SegmentAlgorithmTypeValues(algorithm_type)` raises for a string outside the enumeration -/
+def badAlgo (f : Filter) : Bool :=
+  match f.algo with
+  | some a => !algoValues.contains a
+  | none => false
+
 /-- `get_segment_numbers` -/
 def getSegmentNumbers (descs : List Desc) (ppv : Option Nat) (f : Filter) : Except ErrKind (List Nat) :=
-  if (match f.algo with | some a => !algoValues.contains a | none => false) then .error .value
+  if badAlgo f then .error .value
   else .ok ((descs.filter fun d => (numberFilterFuncs f ppv).all fun g => g d).map (·.number))
 
 def trackingFilterFuncs (f : Filter) : List (Desc → Bool) :=
@@ -61,10 +67,27 @@ def trackingFilterFuncs (f : Filter) : List (Desc → Bool) :=
 /-- `get_tracking_ids`: a set comprehension; modelled as the duplicate-free list in first-occurrence order
 (the order of the real result is unspecified and is compared after sorting) -/
 def getTrackingIds (descs : List Desc) (f : Filter) : Except ErrKind (List (String × String)) :=
-  if (match f.algo with | some a => !algoValues.contains a | none => false) then .error .value
+  if badAlgo f then .error .value
   else .ok ((descs.filterMap fun d =>
     match d.trackingId, d.trackingUid with
     | some i, some u => if (trackingFilterFuncs f).all (fun g => g d) then some (i, u) else none
     | _, _ => none).eraseDups)
+
+/-! ### specification-level views -/
+
+/-- a description meets every criterion that is given -/
+def matchesFilter (f : Filter) (d : Desc) : Bool :=
+  (match f.label with | some l => d.label == l | none => true) &&
+  (match f.category with | some c => d.category == c | none => true) &&
+  (match f.ptype with | some c => d.ptype == c | none => true) &&
+  (match f.algo with | some a => d.algo == a | none => true) &&
+  (match f.trackingUid with | some u => d.trackingUid == some u | none => true) &&
+  (match f.trackingId with | some u => d.trackingId == some u | none => true)
+
+/-- the background item of a label map -/
+def isBackground (ppv : Option Nat) (d : Desc) : Bool :=
+  match ppv with
+  | some p => d.number == p
+  | none => false
 
 end HdVerif.SegMeta
